@@ -30,6 +30,7 @@ pub const CLASSES: &[&str] = &[
     "missing-files",
     "import-errors",
     "corpus-mutation",
+    "type-grammar",
 ];
 
 const UNDEF: &[&str] = &["Foo", "Bar", "Baz", "Qux", "Zap", "Zip", "Nope", "Ghost", "Wat", "Huh", "Moo", "Blah"];
@@ -128,10 +129,16 @@ fn bad_type(t: &mut Tape, kind: Bad, k: usize) -> String {
         }
         Bad::UnknownGeneric => {
             let g = GENERIC[k % GENERIC.len()];
-            match t.below(4) {
+            // (two different undeclared generics in one member type: which one a single error names must not vary)
+            let g2 = GENERIC[(k + 1 + t.below(GENERIC.len() - 1)) % GENERIC.len()];
+            match t.below(8) {
                 0 | 1 => format!("*{}", g),
                 2 => format!("[*{}]", g),
-                _ => format!("(*{}, int)", g),
+                3 => format!("(*{}, int)", g),
+                4 => format!("fn *{} -> *{}", g, g2),
+                5 => format!("(*{}, *{})", g, g2),
+                6 => format!("[(*{}, fn *{} -> int)]", g2, g),
+                _ => format!("fn *{}, *{} -> (*{}, *{})", g, g2, g2, g),
             }
         }
         Bad::TooManyArgs => match t.below(3) {
@@ -975,7 +982,7 @@ fn corpus_mutation(t: &mut Tape, avoid: bool) -> Built {
 // ------------------------------------------------------------------------------------------------
 
 /// (class index into CLASSES, weight); the first entry is what an exhausted tape yields
-const MIX: &[(usize, u32)] = &[(1, 8), (0, 6), (2, 6), (3, 9), (4, 9), (5, 8), (6, 8), (7, 7), (8, 7), (9, 6), (10, 7), (11, 6), (12, 4), (13, 5), (14, 8)];
+const MIX: &[(usize, u32)] = &[(1, 8), (0, 6), (2, 6), (3, 9), (4, 9), (5, 8), (6, 8), (7, 7), (8, 7), (9, 6), (10, 7), (11, 6), (12, 4), (13, 5), (14, 8), (15, 6)];
 
 pub fn build(t: &mut Tape, avoid: bool) -> Built {
     let ws: Vec<u32> = MIX.iter().map(|m| m.1).collect();
@@ -999,6 +1006,7 @@ pub fn build_class(t: &mut Tape, avoid: bool, class: usize) -> Built {
         11 => syntax_errors(t, avoid),
         12 => missing_files(t),
         13 => import_errors(t),
+        15 => Built { project: single(crate::c07::type_grammar(t)), class: "type-grammar", planted: 0 },
         _ => corpus_mutation(t, avoid),
     }
 }
